@@ -6,7 +6,7 @@ import RedisVerif.Model.WalActor
   C09 sub-driver.  One line = one workload:
     G | GP <policy a|e|n> | GT <group_commit_max_wait in µs>  (G = Always; GT = Always with the callers'
       5 s ack timeout on the virtual clock: a caller whose ack is only sent when the group-commit wait runs
-      out is told `timeout` when that wait is longer than 5 s)
+      out is told an fsync-class error (`WAL write timed out`) when that wait is longer than 5 s)
       <fix 0|1> <tickSyncs 0|1> <format 1|2> <reuseSeq 0|1> <maxSize> <maxEntries> K <nincarnations>
       { F <nf> {<callIndex> <ok|fail|full|torn:K>}* D <deadFrom|->
         W <ngroups> {<nmsgs> {w <id> <ts> <hex> | f <id> <ts> <hex> | t | x <T>}*}*
@@ -234,7 +234,7 @@ def step (line : String) : String :=
       | some w => if late.contains x.id then
           (match seenAfter w x.res with
           | some (.ack r) => showAck r
-          | some .timedOut => "timeout"
+          | some .timedOut => "fsync"   -- `FsyncFailed("WAL write timed out")`: the error CLASS is compared
           | _ => "?")
         else showAck x.res
       | none => showAck x.res
